@@ -104,6 +104,17 @@ CLAIMS = {
          "delete_raggedarray checked on the implementation here, their model is C16's.",
          "Coq proof over executable models + in-Coq differential evaluation over the full operation matrix",
          "6.C11"),
+ 'C16': ("kernel-checked over Fs.v (tree with files, directories, symbolic links): delete_array / "
+         "delete_raggedarray keep every entry that is not one of Darr's own file names directly in the "
+         "directory exactly as it was (bytes, link targets, at any depth) and, when such an entry is "
+         "inside the directory, raise OSError; a path that does not open as an array of the right kind "
+         "gives TypeError and a read-only one OSError with the tree untouched; creating on an existing "
+         "path without overwrite (and over a plain file in any case) is refused before anything is "
+         "touched. Tie: foreign content kinds x locations x target kinds x call forms, and 7 creating "
+         "functions x occupants x overwrite, with recursive byte snapshots of the target and of an outside "
+         "directory; the remaining listing is compared with the model inside coqc.",
+         "Coq proof over a file-tree model + in-Coq differential evaluation with byte snapshots",
+         "6.C16"),
  'C17': ("kernel-checked for every fault plan and EVERY crash state (inductive relation crash/rcrash: any "
          "point between two file effects, or the effect in progress torn -- any prefix of written or "
          "appended bytes, description/README being rewritten unparsable): Array append/iterappend incl. the "
@@ -147,6 +158,16 @@ CLAIMS = {
          "iterchunks' copying are compared on exhaustive small and random 62-bit cases.",
          "Coq proof over source-translated functions (tie T) + in-Coq differential evaluation (tie K)",
          "6.C14"),
+ 'C20': ("kernel-checked over Fs.v: a name given to any public DataDir mutator that RESOLVES ('.', '..', "
+         "separators, absolute spelling, symbolic links) on or below a protected entry is refused with OSError "
+         "and the file system is unchanged (C20_protected), in particular for the unbounded family of spellings "
+         "./(n times) x1/../ ... xk/../ NAME [/below...] (C20_spellings); the protected sets are regenerated "
+         "from the source (ragged: values/ and indices/ directories included); user files: write/read round "
+         "trip, overwrite gate, get/set/delete laws. Tie: every public method x every protected name of both "
+         "kinds x spelling grammar (str and Path, ./, //, sub/../, absolute, symlink) x 7 file modes x overwrite, "
+         "result and 'did the tree change' compared with the model in coqc, byte snapshots compared directly.",
+         "Coq proof over a path-resolution model + in-Coq differential evaluation over spellings",
+         "6.C20"),
 }
 
 ALL = [f'C{i:02d}' for i in range(1, 21)]
